@@ -27,6 +27,7 @@ import (
 
 	_ "github.com/caddyserver/caddy/v2/modules/caddyevents"
 	_ "github.com/caddyserver/caddy/v2/modules/caddyhttp"
+	_ "github.com/caddyserver/caddy/v2/modules/caddyhttp/reverseproxy"
 	_ "github.com/caddyserver/caddy/v2/modules/caddytls"
 	_ "github.com/caddyserver/caddy/v2/modules/filestorage"
 
@@ -191,10 +192,15 @@ func parseScenario(f []string) (sc scenario, ok bool) {
 			case sc.cfgs[k].fail:
 				allowed = "psrd"
 			}
-			if !strings.Contains(allowed, p[2]) {
-				return sc, false
+			// an upper-case release letter: the request goes through the real reverse_proxy
+			rel, proxy := p[2], false
+			if l := strings.ToLower(rel); l != rel {
+				rel, proxy = l, true
 			}
-			sc.toks = append(sc.toks, tokSpec{load: k, addr: a, rel: p[2][0]})
+			if !strings.Contains(allowed, rel) || proxy && a == pkt0 {
+				return sc, false // (no proxied requests over the SOCK_SEQPACKET address: message boundaries)
+			}
+			sc.toks = append(sc.toks, tokSpec{load: k, addr: a, rel: rel[0], proxy: proxy})
 		}
 		if len(sc.toks) > 8 {
 			return sc, false
@@ -244,7 +250,11 @@ func (sc scenario) String() string {
 	if len(sc.toks) > 0 {
 		var parts []string
 		for _, t := range sc.toks {
-			parts = append(parts, fmt.Sprintf("%d:%s:%c", t.load, addrNames[t.addr], t.rel))
+			rel := string(t.rel)
+			if t.proxy {
+				rel = strings.ToUpper(rel)
+			}
+			parts = append(parts, fmt.Sprintf("%d:%s:%s", t.load, addrNames[t.addr], rel))
 		}
 		ts = strings.Join(parts, ";")
 	}
@@ -570,6 +580,9 @@ func (r *runner) tags() []string {
 	}
 	for _, t := range r.sc.toks {
 		set["inflight-"+string(t.rel)] = true
+		if t.proxy {
+			set["inflight-through-reverse-proxy"] = true
+		}
 	}
 	// schedule facts read off the trace
 	lastMain := map[int]byte{}
@@ -769,7 +782,10 @@ func genScenario(rng *core.Rand, maxCfgs int) scenario {
 			allowed = "psrd"
 		}
 		for t := 1 + rng.Intn(2); t > 0; t-- {
-			sc.toks = append(sc.toks, tokSpec{load: k, addr: as[rng.Intn(len(as))], rel: allowed[rng.Intn(len(allowed))]})
+			sc.toks = append(sc.toks, tokSpec{load: k, addr: as[rng.Intn(len(as))], rel: allowed[rng.Intn(len(allowed))], proxy: rng.Chance(2, 5)})
+			if last := &sc.toks[len(sc.toks)-1]; last.addr == pkt0 {
+				last.proxy = false
+			}
 		}
 	}
 	return sc
@@ -823,6 +839,8 @@ var fixedScenarios = []string{
 	"seq 0d100 1 r0;r0;p0;p1,p0;t0,r0+u0;!r0;p1 1:p1:s;3:p0:t",
 	"seq 0 0 t0,r0,u0;r0,t0;p1;r0 -",
 	"seq 0 0 u0;v0;u0 -",
+	"seq 0 1 t0,u0;t0,u0;t0 1:t0:r;1:u0:D;2:t0:R;2:u0:d;3:t0:T",
+	"seq 300 0 t0;t0;!t0;t0 1:t0:D;2:t0:S;3:t0:R",
 	"seq 0 0 u0;!v0;u0 -",
 	"seq 0 1 t0,u0;t0,v0;t0;t0,v0;t0,v0;!t0,u0;t0,u0+v0;- 1:u0:p;4:v0:s",
 	"seq 0 0 v0;v0;u0;!u0,t1;- -",
@@ -838,12 +856,12 @@ var malformed = []string{
 	"seq 0 0 = - -", "seq 0 0 !t0 - -", "seq 0 0 t0;t1 1:t1:p -", "seq 0 0 t0;t1 1:t0:q -", "seq 0 0 t0;t1 3:t0:p -",
 	"seq 0 0 t0;t1 2:t1:p -", "seq 0 1 t0;!t0 1:t0:s -", "seq 0 0 t0;= 1:t0:p -", "storm 3", "seq -1 0 t0 - -", "seq 0 0 t0; - -",
 	"seq 0 0 t0+ - -", "seq 00 0 t0 - -", "seq 0 0 t0;t0 01:t0:p -", "seq 0 0 t0@t1 - -", "seq 0 0 m0 - -", "seq 0 0 r0,p0 - -", "seq 0 0 r1 - -", "seq 0 0 r0;r0 1:r0:p -", "seq 0 0 t0@ - -",
-	"seq 0 0 t0;=@m0 - -", "seq 0 0 t0@m0;t0 1:m0:p -", "seq 0d0 0 t0 - -", "seq 0d 0 t0 - -", "seq d5 0 t0 - -", "seq 0d5d 0 t0 - -", "seq 0d3000 0 t0 - -",
+	"seq 0 0 t0;=@m0 - -", "seq 0 0 t0@m0;t0 1:m0:p -", "seq 0d0 0 t0 - -", "seq 0 0 v0;v0 1:v0:R -", "seq 0 0 t0;t0 1:t0:X -", "seq 0d 0 t0 - -", "seq d5 0 t0 - -", "seq 0d5d 0 t0 - -", "seq 0d3000 0 t0 - -",
 }
 
 func (p *prop) Generate(rng *core.Rand, tier string, emit func(string)) {
 	p.setup()
-	nScen, maxCfgs, storms, stormLen := 45, 5, 1, 40
+	nScen, maxCfgs, storms, stormLen := 40, 5, 1, 30
 	switch tier {
 	case "thorough":
 		nScen, maxCfgs, storms, stormLen = 300, 8, 3, 200
